@@ -131,7 +131,7 @@ meta("C18",
 meta("C14",
      rule="GFA1 (70%) and GFA2 graphs of 2-8 segments with M/=-only or '*' overlaps: backbone chains of 2-5 segments in every mix of orientations, rings, plus branches, self-links, hairpins on chain ends and inside, chains sharing junctions, with and without sequences; linear_paths() is compared with the independent chain finder (modulo reversal / ring rotation); after merge_linear_paths(): spelled sequence (orientation taken from the path gfapy reported), length, exact multiset of outward dovetails re-attached to the right ends, untouched segments, component partition, closed/symmetric object graph, idempotence; non-trivial = a chain of >=3 segments with mixed exit ends 30% of the merges use enable_tracking=True (the '^' marks in merged names are stripped before comparison). Graphs built at validation levels 0-3.",
      budget={"quick": 20, "thorough": 300},
-     min_counts={"quick": {"merges_at_level_3": 1500, "merges_at_level_0": 1500, "merges_with_enable_tracking": 1000, "linear_paths_calls": 8000, "merges": 5000, "invariant_evaluations": 3000}},
+     min_counts={"quick": {"merges_at_level_3": 1500, "linear_path_calls": 5000, "merges_at_level_0": 1500, "merges_with_enable_tracking": 1000, "linear_paths_calls": 8000, "merges": 5000, "invariant_evaluations": 3000}},
      set_samples=["features", "chain_lengths"])
 
 meta("C15",
